@@ -10,6 +10,7 @@ package c14
 import (
 	"bytes"
 	"encoding/binary"
+	"errors"
 	"fmt"
 	"github.com/bitcoin-sv/block-headers-service/internal/chaincfg/chainhash"
 	"math/rand"
@@ -335,6 +336,17 @@ func concurrentRoundTrips(r *ev.Run, t *tables) {
 				}
 			}
 			_, _ = wire.ReadVarInt(bytes.NewReader(nil), wire.ProtocolVersion)
+			// ... and a connection that goes away in the middle of a frame the service is writing: the 24-byte header gets
+			// through, the payload does not
+			am := wire.NewMsgAddr()
+			for a := 0; a < 30; a++ {
+				_ = am.AddAddress(wire.NewNetAddressIPPort(net.IPv4(172, 16, 9, byte(a)), 9999, wire.SFNodeNetwork))
+			}
+			for _, cut := range []int{24, 25, 60} {
+				if _, err := wire.WriteMessageWithEncodingN(&cutWriter{left: cut}, am, wire.ProtocolVersion, wire.MainNet, wire.BaseEncoding); err != nil {
+					hostileFrames.Add(1)
+				}
+			}
 		}
 		for k := 0; k < 8; k++ {
 			truncated()
@@ -468,4 +480,17 @@ func timing(id string) func() {
 			f.Close()
 		}
 	}
+}
+
+// cutWriter accepts `left` bytes and fails from then on (a connection lost in the middle of a frame).
+type cutWriter struct{ left int }
+
+func (w *cutWriter) Write(p []byte) (int, error) {
+	if len(p) <= w.left {
+		w.left -= len(p)
+		return len(p), nil
+	}
+	n := w.left
+	w.left = 0
+	return n, errors.New("verif: connection lost")
 }
